@@ -11,6 +11,7 @@ mod scheduler_tasks;
 mod permissions;
 mod routes;
 mod apply_domain;
+mod status_writes;
 
 fn main() {
     let args: Vec<String> = std::env::args().collect();
@@ -27,6 +28,7 @@ fn main() {
         "permissions" => permissions::run(&repo),
         "routes" => routes::run(&repo, out),
         "apply_domain" => apply_domain::run(&repo),
+        "status_writes" => status_writes::run(&repo),
         t => {
             eprintln!("unknown table {t}");
             std::process::exit(2);
